@@ -55,6 +55,15 @@ SPECIALS = [
     ("ansi", "INSERT INTO {a} SELECT (SELECT max(x.c2 + y.c3) FROM {c} y) AS m, x.c1 FROM {b} x"),
     ("ansi", "INSERT INTO {a} SELECT (SELECT max(x.c2 + y.c3) FROM s9.tc y) AS m, x.c1 FROM {b} x"),
     ("ansi", "INSERT INTO {a} SELECT (SELECT max(tb.c2 + c3) FROM {c}) AS m FROM {b}"),
+    # mixed qualification: a table of another schema shares the bare name of an unqualified one; a bare new name in a
+    # rename whose old name is qualified
+    ("ansi", "INSERT INTO {a} SELECT tb.c1 FROM {b} JOIN s1.tb ON 1 = 1"),
+    ("ansi", "INSERT INTO {a} SELECT tb.c1 FROM s1.tb JOIN {b} ON 1 = 1"),
+    ("ansi", "INSERT INTO {a} SELECT tb.c1, c2 FROM {b}, s1.tb"),
+    ("non-validating", "INSERT INTO {a} SELECT tb.c1 FROM {b} JOIN s1.tb ON 1 = 1"),
+    ("ansi", "CREATE TABLE s1.st AS SELECT c1 FROM {b}; ALTER TABLE s1.st RENAME TO {a}; INSERT INTO {c} SELECT c1 FROM {a}"),
+    ("mysql", "CREATE TABLE s1.st AS SELECT c1 FROM {b}; RENAME TABLE s1.st TO {a}; INSERT INTO {c} SELECT c1 FROM {a}"),
+    ("ansi", "INSERT INTO {a} SELECT c1 FROM s1.tb; ALTER TABLE {a} RENAME TO s1.tz; INSERT INTO {c} SELECT c1 FROM s1.tz"),
 ]
 
 
